@@ -313,9 +313,22 @@ def _case_tree(run, rng, quick, case_seed, icase):
     cplx_b = bool(rng.random() < 0.4)
     B = _random_state(rng, ctx, cplx_b, qntot=A["qntot"], max_bond=3)
     bsum = None
+    if B is not None and n_nodes > 1 and rng.random() < 0.35:
+        # mixed node dtypes: a real operand that carries a phase on ONE non-root node (real root, one complex node)
+        Br = B if not cplx_b else _random_state(rng, ctx, False, qntot=A["qntot"], max_bond=3)
+        if Br is not None:
+            B = Br
+            k = 1 + int(rng.integers(n_nodes - 1))
+            ph = np.exp(1j * float(rng.uniform(0.3, 2.8)))
+            B["tensors"] = [np.asarray(t) * ph if i == k else np.asarray(t) for i, t in enumerate(B["tensors"])]
+            B["psi"] = B["psi"] * ph
+            run.count("add:mixed-node-dtypes")
     if B is not None:
         bt = L.build_ttns(tree, spec, B["tensors"], B["qns"])
-        ok, bsum = case.call("add", cls, lambda: a.add(bt))
+        if rng.random() < 0.3 and n_nodes > 1:
+            ok, bsum = case.call("add", cls, lambda: bt.add(a))
+        else:
+            ok, bsum = case.call("add", cls, lambda: a.add(bt))
         if ok and n_nodes == 1:
             # own signature: on a one-node tree the root is the only node and both operands are
             # written to the same slice
